@@ -415,7 +415,10 @@ theorem earlier_popped {s : BSt} (hF : FI none [] s) (hG : GI s) (hp : GracePrem
   rcases List.mem_append.mp hr with h | h
   · exact h
   · exfalso
-    have hk : k ∈ s.registry := hI.reg k (by intro he; rw [chain, he] at h; cases h)
+    have hk : k ∈ s.registry := hI.reg k (by
+      intro he
+      have hc : r ∈ chain (s.th k) := h
+      rw [he] at hc; cases hc)
     have := o.above st hpl k hk r h
     omega
 
